@@ -85,6 +85,10 @@ pub broadcast proof fn axiom_sym_cloned(a: Sym, b: Sym)
     ensures #[trigger] cloned::<Sym>(a, b) ==> a == b
 {}
 
+// Rc::ptr_eq: identical allocations hold equal values (the converse is NOT assumed)
+pub assume_specification<T: ?Sized, A: std::alloc::Allocator> [std::rc::Rc::<T, A>::ptr_eq] (a: &std::rc::Rc<T, A>, b: &std::rc::Rc<T, A>) -> (r: bool)
+    ensures r ==> a == b;
+
 // [A6] std contracts
 pub assume_specification<T: Clone> [<[T]>::to_vec] (s: &[T]) -> (r: Vec<T>)
     ensures r@.len() == s@.len(), forall|i: int| 0 <= i < s@.len() ==> cloned::<T>(s@[i], #[trigger] r@[i]),
